@@ -33,6 +33,7 @@ package sqlx
 //@   prop C11
 //@   opaque Deref, parseTagName
 //@   let key = ret(parseTagName)
+//@   loop 1 entry [starts-at-zero] i == 0
 //@   loop 1 invariant 0 <= i && fresh(result)
 //@   loop 1 iteration-ensures [tag-of-the-same-field] calls(parseTagName) == 1 && calls(rt.Field) == 1 && arg(rt.Field, 0) == at_head(i) && arg(parseTagName, 0) == ret(rt.Field)
 //@   loop 1 iteration-ensures [value-of-the-same-field] calls(reflect.Indirect, v) == 1 && arg(ret(reflect.Indirect).Field, 1) == at_head(i)
@@ -283,6 +284,7 @@ package sqlx
 //@ func unwrapFields
 //@   prop C11
 //@   opaque unwrapFields, Deref
+//@   loop 1 entry [starts-at-zero] i == 0
 //@   loop 1 invariant 0 <= i
 //@   loop 1 iteration-ensures [field-i-in-order] calls(indirect.Field, at_head(i)) == 1 && i == at_head(i) + 1 && (calls(unwrapFields) == 0 ==> len(fields) == at_head(len(fields)) + 1) && (calls(unwrapFields) == 1 ==> len(fields) == at_head(len(fields)) + len(ret(unwrapFields)))
 //@   loop 1 iteration-ensures [embedded-structs-flattened-in-place] calls(unwrapFields) == 1 ==> ret(Field, 0, 2).Anonymous && calls(unwrapFields) <= 1
